@@ -29,6 +29,7 @@ def run(chk, ix, tier):
     rules_tags.check_printing(chk, ix)
     rules_tags.check_v2_glue(chk, ix)
     rules_tags.check_v2_glue_concrete(chk, ix)
+    rules_tags.check_v2_list_form(chk, ix)
     rules_tags.check_v2_renderings(chk, ix, tier)
     rules_tags.check_config_tags(chk, ix)
     for r, n in (("T1", 140), ("T2", 3), ("T3", 25), ("T4", 200), ("T5", 4)):
